@@ -39,6 +39,13 @@ CHECKS = {
             'exactly f(z), for -o, stdout, suffix, prefix, --replace, --no-backup and -o onto the source.',
             'The reference f(z) comes from the same binary in a plain -f run, so a defect that changes both paths identically is '
             'invisible here (C10 covers mode equivalence).', 'DESIGN.md §3 C12'),
+    'C10': ('exploration', 'seeded inputs x delivery modes x observer subsets x environments; differential oracle against a reference mode',
+            'Each seeded (file, config) pair is pushed through 14 delivery/output modes with random observer subsets, every observer '
+            'alone and all together, 10 environment variations (locale, TZ, HOME, ASLR off, repeats, large environment) and another '
+            'working directory; all byte strings must equal the reference mode and the created files must be the documented set; '
+            'thorough adds a valgrind sample for uninitialised reads.',
+            'Sampling only: independence from address-space layout / uninitialised memory is attacked by repeats, setarch -R and '
+            'valgrind, never proven.', 'DESIGN.md §3 C10'),
 }
 
 ALL = ['C%02d' % i for i in range(1, 21)]
